@@ -9,6 +9,16 @@ NOTE = ("Trusted base: clang 14 front end + clang::CFG, tools/xzfacts.cc, sa/*.p
         "of the property is NOT decided (see DESIGN.md section 4).")
 
 CLAIMED = {
+ "C02": dict(
+  text="Writer/reader/specification agreement decided from the syntax trees: constant-folded offsets, lengths, CRC ranges "
+       "and CRC positions of Stream Header/Footer on both sides equal the transcription of xz-file-format.txt; magic bytes; "
+       "Backward Size and Block Header Size byte round-trip by evaluating the encoder's and decoder's expressions on values; "
+       "Block Header flag bits map to the same fields, same field order and CRC range on both sides; the control bytes the LZMA2 "
+       "encoder emits for its 8 flag combinations fall in the spec class with the same reset meaning, chunk sizes big-endian "
+       "minus one (value-evaluated); provenance of Block sizes, Index/footer fields, check type, .lzma header. Conformance of "
+       "whole streams under an independent decoder is NOT decided.",
+  technique="layout-fact extraction and comparison (encoder vs decoder vs spec), expression evaluation on sample values, finite-domain evaluation",
+  ref="4/C02"),
  "C14": dict(
   text="Every entry of the CRC32/CRC64 slice tables (3072 values), the CLMUL folding and Barrett constants of both widths, "
        "the shuffle masks, the SHA-256 round constants and initial state, and check_sizes[] is compared with a value computed "
